@@ -236,7 +236,7 @@ class PythonExpr(TalesExpr):
 
     def translate(self, expression, target):
         # Strip spaces
-        string = expression.strip()
+        source = string = expression.strip()
 
         # Convert line continuations to newlines
         string = substitute(re_continuation, '\n', string)
@@ -247,7 +247,8 @@ class PythonExpr(TalesExpr):
         try:
             value = self.parse(string)
         except SyntaxError as exc:
-            raise ExpressionError(exc.msg, string)
+            # Report the expression as written in the template
+            raise ExpressionError(exc.msg, source)
 
         # Transform attribute lookups to allow fallback to item lookup
         result = self.transform.visit(value)
